@@ -4,10 +4,20 @@ Obligations : Properties/C20.lean (theorems over Generated/PyFuns.lean = AST tra
               current source, and over the hand model Model/Misc.lean).
 Correspondence: real function vs native model driver on exhaustive small domains + sampled big values.
 Oracle      : the contract statements evaluated on the real functions (independent of the model).
+
+Phase 2: Generated/PyFuns2.lean (get_bytes_cnt_of_int with its while loop, BcdVersion3._check_number, the guards of
+swap32 / reverse_bytes_in_longs, the num_padding arithmetic of extend_block / align_block) and Generated/EnumTables.lean
+are regenerated as well and compared with the real functions; hand models of load_hex_string (literal branch),
+value_to_bool, BinaryPattern acceptance/.pattern, split_data and the SpsdkEnum lookups get their own streams.
 """
 from __future__ import annotations
 
+import contextlib
 import itertools
+import logging
+import os
+import signal
+import threading
 
 from vcore import canon, hexs, pyres
 
@@ -71,7 +81,7 @@ def run(ck):
     from spsdk.sbfile.sb2 import commands as sb2cmd
     from spsdk.utils import misc
 
-    ck.lean_obligations(generated=["PyFuns"])
+    ck.lean_obligations(generated=["PyFuns", "PyFuns2", "EnumTables"])
     drv = ck.driver()
     ck.assume("Python int/bytes/str built-ins behave as documented (int(str, base), to_bytes, slicing)",
               "negative integers are outside the modelled domain of get_bytes_cnt_of_int/value_to_bytes/reverse_bits "
@@ -333,21 +343,323 @@ def run(ck):
         s.expect(r[0] != "ok", ("bcd_bad", bad), "BcdVersion3.from_str accepts a malformed version", r)
     corr(s, reqs)
 
-    # ------------------------------------------------------------------ load_hex_string (literal branch)
-    s = ck.stream("load_hex_string", "literal branch: hex strings of exact, short and long size, with/without 0x; non-trivial = distinct input")
-    for size in (1, 4, 16, 32):
-        good = bytes(rng.getrandbits(8) | 1 for _ in range(size))
-        for lit in (good.hex(), "0x" + good.hex(), "0X" + good.hex().upper()):
+    run_phase2(ck, drv, corr, misc, sbmisc, values, sw32)
+
+
+# ====================================================================================================== phase 2
+class _Timeout(Exception):
+    pass
+
+
+def bounded(fn, *a, seconds=0.05):
+    """pyres() with a wall-clock bound (SIGALRM, main thread only): ('timeout',) when the call does not return."""
+    if threading.current_thread() is not threading.main_thread() or not hasattr(signal, "setitimer"):
+        return None
+
+    def handler(_sig, _frm):
+        raise _Timeout()
+
+    old = signal.signal(signal.SIGALRM, handler)
+    try:
+        signal.setitimer(signal.ITIMER_REAL, seconds)
+        try:
+            return pyres(fn, *a)
+        except _Timeout:
+            return ("timeout",)
+        finally:
+            signal.setitimer(signal.ITIMER_REAL, 0)
+    except _Timeout:  # fired between the call and the cancellation
+        return ("timeout",)
+    finally:
+        signal.signal(signal.SIGALRM, old)
+
+
+def _hx(st: str) -> str:
+    return hexs(st.encode())
+
+
+def run_phase2(ck, drv, corr, misc, sbmisc, values, sw32):
+    from spsdk.image.ahab.ahab_data import AhabTargetMemory
+    from spsdk.sbfile.sb2.commands import EnumCmdTag
+
+    rng = ck.rng
+    ck.assume("float assumption of the translator: `int(ceil(a / b))` is the exact ceiling while |a|,|b| < 2^53 (both operands exact "
+              "doubles, correctly rounded quotient); outside that range the generated function makes no claim (.error .other)",
+              "load_hex_string is modelled for sources that do not name an existing file (the check runs it in an empty directory); "
+              "the file branch is exercised by the oracle only",
+              "SpsdkEnum labels are ASCII (str.upper modelled on ASCII)")
+    FUEL = 200
+
+    # ------------------------------------------------------------------ generated phase-2 functions vs the real ones
+    s = ck.stream("generated2", "PyFuns2 (re-translated from the source each run) vs the real functions: get_bytes_cnt_of_int on the "
+                  "int_bytes values x align_to_2n x byte_cnt in {None,0,1,2,3,4,8,16,65} (fuel 200) + negative values under a 50 ms "
+                  "alarm; BcdVersion3._check_number on [-3,0x1100) + boundaries + random (all of [-3,0xA010] thorough); swap32 guard; "
+                  "reverse_bytes_in_longs guard for len 0..66; extend_block/align_block num_padding for len 0..40 x lengths/alignments")
+    reqs = []
+    for v in values:
+        for a2n in (True, False):
+            for bc in (None, 0, 1, 2, 3, 4, 8, 16, 65):
+                r = pyres(misc.get_bytes_cnt_of_int, v, a2n, bc)
+                s.note(("gen_bytes_cnt", v, a2n, bc))
+                reqs.append((("gen_bytes_cnt", v, a2n, bc), f"gen_bytes_cnt {FUEL} {v} {int(a2n)} {'none' if bc is None else bc}", canon(r)))
+    for v in (-1, -2, -255, -256, -(2 ** 64)):
+        r = bounded(misc.get_bytes_cnt_of_int, v)
+        if r is None:
+            continue
+        s.note(("gen_bytes_cnt_negative", v))
+        # fuel exhaustion of the translated loop <-> the real call does not return (robustness observation, not a property clause)
+        reqs.append((("gen_bytes_cnt_negative", v), f"gen_bytes_cnt 3000 {v} 1 none", "E:other" if r == ("timeout",) else canon(r)))
+    ck.extra["get_bytes_cnt_of_int_negative"] = "does not terminate (50 ms alarm) - matches the generated model's fuel exhaustion"
+    bcd = set(range(-3, 0x1100)) | {0x9999, 0x999A, 0x99A0, 0x9A00, 0xA000, 0x9998, 0x10000, 0x19999, 2 ** 32}
+    if ck.quick:
+        bcd |= {rng.randrange(0x1100, 0xA010) for _ in range(3000)}
+    else:
+        bcd |= set(range(0x1100, 0xA011))
+    for n in sorted(bcd):
+        r = pyres(sbmisc.BcdVersion3._check_number, n)
+        want = 0 <= n <= 0x9999 and f"{n:04X}".isdigit()
+        s.note(("bcd_check", n), cls="ok" if r[0] == "ok" else r[0])
+        s.expect(r == (("ok", True) if want else ("E:spsdk",)), ("bcd_check", n), "BcdVersion3._check_number does not accept exactly the "
+                 "numbers whose four hex digits are decimal digits", r, want)
+        reqs.append((("bcd_check", n), f"gen_bcd_check {n}", canon(r)))
+    for x in sw32:
+        r = pyres(misc.swap32, x)
+        s.note(("swap32_guard", x))
+        reqs.append((("swap32_guard", x), f"gen_swap32_guard {x}", "ok:true" if r[0] == "ok" else r[0]))
+    for ln in range(0, 67):
+        r = pyres(misc.reverse_bytes_in_longs, bytes(ln))
+        s.note(("revlongs_guard", ln))
+        reqs.append((("revlongs_guard", ln), f"gen_revlongs_guard {ln}", "ok:true" if r[0] == "ok" else r[0]))
+    for ln in range(0, 41):
+        for length in (ln - 2, ln - 1, ln, ln + 1, ln + 17, 0, 64):
+            r = pyres(misc.extend_block, bytes(ln), length, 0xA5)
+            s.note(("extend_np", ln, length))
+            reqs.append((("extend_np", ln, length), f"gen_extend_np {ln} {length} 165", f"ok:{len(r[1]) - ln}" if r[0] == "ok" else r[0]))
+        for a in range(-2, 18):
+            r = pyres(misc.align_block, bytes(ln), a)
+            s.note(("align_np", ln, a))
+            reqs.append((("align_np", ln, a), f"gen_align_np {ln} {a}", f"ok:{len(r[1]) - ln}" if r[0] == "ok" else r[0]))
+    corr(s, reqs)
+
+    # ------------------------------------------------------------------ load_hex_string
+    s = ck.stream("load_hex_string", "literal branch in an empty working directory: hex literals of exact / short / long size for sizes "
+                  "1,2,3,4,5,8,16,32 with/without 0x/0X, upper case, separators, suffixes, invalid characters; every string of length <= 3 "
+                  "over '01fx_uXb ' x sizes 1..4; bytes / int / None sources; sizes 0 and -1; file branch (oracle only); "
+                  "non-trivial = distinct input")
+    scratch = os.path.join(os.environ.get("VERIF_SCRATCH", "/tmp"), "c20-empty-cwd")
+    os.makedirs(scratch, exist_ok=True)
+    logging.getLogger("spsdk.utils.misc").setLevel(logging.ERROR)  # "key source is not specified, the random value is used"
+    reqs = []
+    lits = []
+    for size in (1, 2, 3, 4, 5, 8, 16, 32):
+        for first in (None, 0):
+            good = bytes(rng.getrandbits(8) | 1 for _ in range(size))
+            if first is not None:
+                good = bytes([first]) + good[1:]
+            h = good.hex()
+            group = h[:2] + "_" + h[2:] if len(h) > 2 else h
+            for lit in (h, "0x" + h, "0X" + h.upper(), h.upper(), h + "00", "00" + h, h[2:], h[1:], "zz" * size, (good + good).hex(), group,
+                        h + "ul", h + "ulll", " " + h, h + " ", "0x" + " " + h, "0b" + h, "0o" + h, "+" + h, "-" + h, "0x0x" + h, h + "g"):
+                lits.append((lit, size, good))
+    for L in range(1, 4):
+        for t in itertools.product("01fx_uXb ", repeat=L):
+            for size in (1, 2, 3, 4):
+                lits.append(("".join(t), size, None))
+    with _cwd(scratch):
+        for lit, size, good in lits:
+            if lit == "":
+                continue
             r = pyres(misc.load_hex_string, lit, size)
-            s.note((lit, size))
-            s.expect(r == ("ok", good), (lit, size), "load_hex_string does not return the literal's bytes", r)
-        for lit in (good.hex() + "00", "zz" * size, (good + good).hex()):
-            r = pyres(misc.load_hex_string, lit, size)
-            s.note((lit, size))
-            s.expect(r[0] == "E:spsdk", (lit, size), "load_hex_string accepts a literal of the wrong size / invalid literal", r)
-        r = pyres(misc.load_hex_string, good, size)
-        s.note((good, size))
-        s.expect(r == ("ok", good), (good, size), "load_hex_string(bytes) is not the identity", r)
+            s.note(("str", lit, size), cls=r[0])
+            reqs.append((("str", lit, size), f"load_hex str {_hx(lit)} {size}", canon(r)))
+            lit0x = lit if lit.startswith(("0x", "0X")) else "0x" + lit
+            val = pyres(misc.value_to_int, lit0x)
+            if r[0] == "ok":
+                ok = len(r[1]) == size and val[0] == "ok" and int.from_bytes(r[1], "big") == val[1]
+                s.expect(ok, ("str", lit, size), "load_hex_string accepts a literal but does not return its value on expected_size bytes", r, val)
+            else:
+                s.expect(r[0] == "E:spsdk", ("str", lit, size), "load_hex_string fails on a literal with a non-SPSDK error", r)
+                fits = val[0] == "ok" and val[1] < 256 ** size
+                if fits:
+                    # the value fits expected_size bytes but is refused: only the known align_to_2n quirk may do that
+                    quirk = size > 2 and size % 4 != 0 and (val[1].bit_length() + 7) // 8 > 2
+                    s.expect(False, ("str", lit, size), "load_hex_string refuses a hex literal whose value fits expected_size bytes", r, val,
+                             finding="C20-loadhex-odd-size" if quirk else None)
+            if good is not None and lit.lower() in (good.hex(), "0x" + good.hex()) and (size <= 2 or size % 4 == 0):
+                s.expect(r == ("ok", good), ("str", lit, size), "load_hex_string does not return the bytes of an exact-size hex literal", r, good)
+        for size in (1, 2, 3, 4, 16):
+            for b in (b"\x01", b"\x01\x02", bytes(range(1, size + 1)), bytes(size), bytes(size + 1), bytes(range(1, 17))):
+                r = pyres(misc.load_hex_string, b, size)
+                s.note(("bytes", b, size))
+                reqs.append((("bytes", b, size), f"load_hex bytes {hexs(b)} {size}", canon(r)))
+                if len(b) == size:
+                    s.expect(r == ("ok", b), ("bytes", b, size), "load_hex_string(bytes) is not the identity", r)
+                else:
+                    s.expect(r[0] == "E:spsdk", ("bytes", b, size), "load_hex_string returns a bytes source of the wrong size unchanged "
+                             "(expected_size is not enforced)", r, finding="C20-loadhex-bytes-size")
+            for v in (1, 255, 256, 65535, 65536, 2 ** 24, 2 ** 32 - 1, 2 ** 32, 2 ** 64, 2 ** 128 - 1, True):
+                r = pyres(misc.load_hex_string, v, size)
+                s.note(("int", v, size))
+                reqs.append((("int", int(v), size), f"load_hex int {int(v)} {size}", canon(r)))
+                if r[0] == "ok":
+                    s.expect(len(r[1]) == size and int.from_bytes(r[1], "big") == v, ("int", v, size), "load_hex_string(int) does not "
+                             "return the value on expected_size bytes", r)
+                else:
+                    s.expect(r[0] == "E:spsdk", ("int", v, size), "load_hex_string(int) fails with a non-SPSDK error", r)
+        for src, kind, payload in ((None, "none", "-"), ("", "str", "-"), (b"", "bytes", "-"), (0, "int", "0")):
+            for size in (-1, 0, 1, 16):
+                r = pyres(misc.load_hex_string, src, size)
+                s.note(("falsy", repr(src), size))
+                reqs.append((("falsy", repr(src), size), f"load_hex {kind} {payload} {size}",
+                             "ok:random" if r[0] == "ok" and len(r[1]) == size else ("ok:-" if r[0] == "ok" and size == 0 else canon(r))))
+                if size >= 0:
+                    s.expect(r[0] == "ok" and len(r[1]) == size, ("falsy", repr(src), size), "load_hex_string without a source does not "
+                             "return expected_size random bytes", r)
+        for size in (0, -1):
+            for src in ("00", b"\x00", 1):
+                r = pyres(misc.load_hex_string, src, size)
+                s.note(("size", repr(src), size))
+                s.expect(r[0] == "E:spsdk", ("size", repr(src), size), "load_hex_string accepts a non-positive expected size", r)
+                kind, payload = ("str", _hx(src)) if isinstance(src, str) else (("bytes", hexs(src)) if isinstance(src, bytes) else ("int", str(src)))
+                reqs.append((("size", repr(src), size), f"load_hex {kind} {payload} {size}", canon(r)))
+        # file branch (oracle only): hex text file -> its value; binary file of the right size -> its content; else refused
+        key = bytes(rng.getrandbits(8) | 1 for _ in range(16))
+        files = {"k_hex.txt": key.hex().encode(), "k_0x.txt": b"0x" + key.hex().encode() + b"\n", "k_bin.bin": b"\xff\xfe" + key[2:],
+                 "k_short.bin": b"\xff\xfe" + key[2:8], "k_bad.txt": b"hello world, not a key"}
+        for name, content in files.items():
+            with open(name, "wb") as fh:
+                fh.write(content)
+        for name, want in (("k_hex.txt", key), ("k_0x.txt", key), ("k_bin.bin", files["k_bin.bin"]), ("k_short.bin", None), ("k_bad.txt", None)):
+            r = pyres(misc.load_hex_string, name, 16)
+            s.note(("file", name))
+            s.expect(r == (("ok", want) if want is not None else ("E:spsdk",)), ("file", name, files[name]),
+                     "load_hex_string(file) does not return the key stored in the file / accepts a file of the wrong size", r, want)
+        for name in files:
+            with contextlib.suppress(OSError):
+                os.remove(name)
+    corr(s, reqs)
+
+    # ------------------------------------------------------------------ value_to_bool, BinaryPattern, split_data
+    s = ck.stream("small_helpers", "value_to_bool on spellings/case variants/ints/bools/None; BinaryPattern acceptance and .pattern on the "
+                  "special names, their case variants and every string of length <= 2 over the 16-character alphabet + number samples; "
+                  "split_data on every length 0..20 x sizes -2..8,16,64; non-trivial = distinct input")
+    reqs = []
+    for v in ["True", "true", "T", "1", "TRUE", "t", "tRue", "0", "", "yes", " true", "true ", "False", "1 ", "01", "11", "T1", "None"]:
+        r = pyres(misc.value_to_bool, v)
+        s.note(("bool_str", v))
+        s.expect(r == ("ok", v in ("True", "true", "T", "1")), ("bool_str", v), "value_to_bool(str) is not 'one of True/true/T/1'", r)
+        reqs.append((("bool_str", v), f"value_to_bool str {_hx(v)}", canon(r)))
+    for v in (-1, 0, 1, 2, 2 ** 70):
+        r = pyres(misc.value_to_bool, v)
+        s.note(("bool_int", v))
+        s.expect(r == ("ok", v != 0), ("bool_int", v), "value_to_bool(int) is not `!= 0`", r)
+        reqs.append((("bool_int", v), f"value_to_bool int {v}", canon(r)))
+    for v, line in ((True, "value_to_bool bool 1"), (False, "value_to_bool bool 0"), (None, "value_to_bool none -")):
+        r = pyres(misc.value_to_bool, v)
+        s.note(("bool_other", repr(v)))
+        s.expect(r == ("ok", bool(v)), ("bool_other", repr(v)), "value_to_bool(bool/None) is not bool(value)", r)
+        reqs.append((("bool_other", repr(v)), line, canon(r)))
+    pats = list(misc.BinaryPattern.SPECIAL_PATTERNS) + ["Zeros", "ONES", "Inc", "rand ", " inc", "incr", "zero", "random", "", "0x", "0b", "12ul",
+                                                          "0xFF", " 0x1f ", "1_000", "0b0b_1", "1__0", "-1", "1.5", "0X1F", "0b101", "0o17", "007",
+                                                          hex(rng.getrandbits(72)), str(rng.getrandbits(100))]
+    pats += ["".join(t) for L in (1, 2) for t in itertools.product(ALPHA_BIG, repeat=L)]
+    for pt in pats:
+        def mk(pt=pt):
+            return misc.BinaryPattern(pt).pattern
+        r = pyres(mk)
+        num = ref_vti(pt) if pt != "" else None
+        s.note(("pattern_init", pt), cls=r[0])
+        accepted = num is not None or pt in ("rand", "zeros", "ones", "inc")
+        s.expect((r[0] == "ok") == accepted and r[0] in ("ok", "E:spsdk"), ("pattern_init", pt), "BinaryPattern does not accept exactly "
+                 "numbers and the special names", r, accepted)
+        if r[0] == "ok":
+            s.expect(r[1] == (hex(num) if num is not None else pt), ("pattern_init", pt), "BinaryPattern.pattern is not hex(value) / the name", r)
+            again = pyres(lambda: misc.BinaryPattern(r[1]).pattern)
+            s.expect(again == r, ("pattern_init", pt), "BinaryPattern.pattern does not re-parse to itself", again, r)
+        reqs.append((("pattern_accept", pt), f"pattern_accept {_hx(pt)}", "ok:true" if r[0] == "ok" else "ok:false"))
+        if r[0] == "ok":
+            reqs.append((("pattern_prop", pt), f"pattern_prop {_hx(pt)}", "ok:" + _hx(r[1])))
+    for L in range(0, 21):
+        data = bytes(rng.getrandbits(8) for _ in range(L))
+        for size in list(range(-2, 9)) + [16, 64]:
+            r = pyres(lambda: list(misc.split_data(data, size)))
+            s.note(("split_data", data, size))
+            if size > 0:
+                ok = (r[0] == "ok" and b"".join(r[1]) == data and all(len(c) == size for c in r[1][:-1])
+                      and all(1 <= len(c) <= size for c in r[1]) and len(r[1]) == (L + size - 1) // size)
+                s.expect(ok, ("split_data", data, size), "split_data chunks do not concatenate to the data / have the wrong sizes", r)
+            reqs.append((("split_data", data, size), f"split_data {hexs(data)} {size}",
+                         "ok:" + ",".join(hexs(bytes(c)) for c in r[1]) if r[0] == "ok" else r[0]))
+    corr(s, reqs)
+
+    # ------------------------------------------------------------------ SpsdkEnum lookups on two real enums
+    s = ck.stream("spsdk_enum", "sb2 EnumCmdTag and AhabTargetMemory: from_tag/get_label/get_description/contains for tags -2..40, the member "
+                  "tags and 0x8000; from_label/get_tag/contains for every label in 6 case/spacing variants + unknown labels; "
+                  "non-trivial = distinct input")
+    reqs = []
+
+    def row(m):
+        return f"{m.tag}:{_hx(m.label)}:" + ("none" if m.description is None else _hx(m.description))
+
+    for name, cls in (("sb2cmd", EnumCmdTag), ("ahabmem", AhabTargetMemory)):
+        members = list(cls.__members__.values())
+        live = [[m.tag, m.label, m.description] for m in members]
+        gen = [m[1:] for m in ck.generated_meta.get("EnumTables", {}).get("enums", {}).get(
+            {"sb2cmd": "enumSb2CmdTag", "ahabmem": "enumAhabTargetMemory"}[name], {}).get("members", [])]
+        s.note(("table", name))
+        s.compare(("table", name), live, gen, "generated member table differs from the live enum")
+        for t in sorted(set(range(-2, 41)) | {m.tag for m in members} | {0x8000}):
+            r = pyres(cls.from_tag, t)
+            known = [m for m in members if m.tag == t]
+            s.note((name, "from_tag", t), cls=r[0])
+            s.expect(r == (("ok", known[0]) if known else ("E:spsdk",)) and (r[0] != "ok" or r[1] is known[0]), (name, "from_tag", t),
+                     "from_tag does not return the member with that tag / does not raise SPSDKKeyError for an unknown tag", r)
+            reqs.append(((name, "from_tag", t), f"enum {name} from_tag {t}", "ok:" + row(r[1]) if r[0] == "ok" else r[0]))
+            r2 = pyres(cls.get_label, t)
+            reqs.append(((name, "get_label", t), f"enum {name} get_label {t}", "ok:" + _hx(r2[1]) if r2[0] == "ok" else r2[0]))
+            if r[0] == "ok":
+                back = pyres(cls.from_label, r2[1]) if r2[0] == "ok" else r2
+                s.expect(back[0] == "ok" and back[1] is r[1], (name, "from_label(get_label)", t), "from_label(get_label(tag)) is not from_tag(tag)", back)
+            for d in (None, "dflt"):
+                r3 = pyres(cls.get_description, t, d)
+                reqs.append(((name, "get_description", t, d), f"enum {name} get_description {t} {'none' if d is None else _hx(d)}",
+                             ("ok:" + ("none" if r3[1] is None else _hx(r3[1]))) if r3[0] == "ok" else r3[0]))
+            r4 = pyres(cls.contains, t)
+            s.expect(r4 == ("ok", bool(known)), (name, "contains", t), "contains(tag) does not answer truthfully", r4)
+            reqs.append(((name, "contains_tag", t), f"enum {name} contains_tag {t}", canon(r4)))
+        labels = []
+        for m in members:
+            l = m.label
+            labels += [l, l.lower(), l.upper(), l.swapcase(), l[:-1], l + " ", " " + l, l + "_", l.capitalize()]
+        labels += ["", "x", "UNKNOWN", "nop ", "N0P", "_"]
+        for l in labels:
+            r = pyres(cls.from_label, l)
+            known = [m for m in members if m.label.upper() == l.upper()]
+            s.note((name, "from_label", l), cls=r[0])
+            s.expect(r[0] == ("ok" if known else "E:spsdk") and (r[0] != "ok" or r[1] is known[0]), (name, "from_label", l),
+                     "from_label is not the case-insensitive label lookup / does not raise SPSDKKeyError for an unknown label", r)
+            reqs.append(((name, "from_label", l), f"enum {name} from_label {_hx(l)}", "ok:" + row(r[1]) if r[0] == "ok" else r[0]))
+            r2 = pyres(cls.get_tag, l)
+            reqs.append(((name, "get_tag", l), f"enum {name} get_tag {_hx(l)}", canon(r2)))
+            if r[0] == "ok":
+                back = pyres(cls.from_tag, r2[1]) if r2[0] == "ok" else r2
+                s.expect(back[0] == "ok" and back[1] is r[1], (name, "from_tag(get_tag)", l), "from_tag(get_tag(label)) is not from_label(label)", back)
+            r4 = pyres(cls.contains, l)
+            s.expect(r4 == ("ok", bool(known)), (name, "contains", l), "contains(label) does not answer truthfully", r4)
+            reqs.append(((name, "contains_label", l), f"enum {name} contains_label {_hx(l)}", canon(r4)))
+        r = pyres(cls.contains, 1.5)
+        s.expect(r[0] == "E:spsdk", (name, "contains", 1.5), "contains(non int/str) is not refused with an SPSDK error", r)
+    corr(s, reqs)
+
+
+@contextlib.contextmanager
+def _cwd(path):
+    old = os.getcwd()
+    os.chdir(path)
+    try:
+        yield
+    finally:
+        os.chdir(old)
 
 
 def replay(ck, data):
